@@ -450,7 +450,7 @@ def checkAmbL (ic : Interceptors) : List Node → Bytes → Bool → Except Err 
       | [] => throw (.fault 250)                       -- `segs[0]`
       | s0 :: _ =>
         if c.seg.isAmbiguous s0 then
-          let rest ← sliceE 251 pat s0.ambiguousLen pat.length
+          let rest ← sliceE 251 pat s0.value.length pat.length       -- D24 repair: `pattern[len(s0.Value):]`
           match ← Node.checkAmb ic c rest true with
           | some h => return some h
           | none => checkAmbL ic cs pat has
